@@ -3,7 +3,7 @@
     oracles guarantee: isoformat() strings never end in "Z", date strings are YYYY-MM-DD,
     version strings of content keys contain no '#'; [fuel] bounds the nesting depth. *)
 From Coq Require Import List NArith ZArith String Bool.
-From Memento Require Import Codec.Json Codec.ArgHash Codec.Wire Codec.WireProofs Gen.SourceFacts Gen.FactsOK.
+From Memento Require Import Codec.Json Codec.ArgHash Codec.Wire Codec.WireProofs Gen.SourceFacts Gen.FactsC11.
 Import ListNotations.
 Open Scope N_scope.
 
